@@ -19,7 +19,7 @@ let code_variant = Fix
      Cur = as shipped (findings rule:{unmerge,merge}-left-shift:rhs-*-overflows-u32);
      Fix = with patches/0016-fix-egraph-rules-derived-width-fits-u32.diff applied (theorems rule_*_sound_fixed).
    Flip to Fix together with the fix: commit in /repo. *)
-let rules_variant = Cur
+let rules_variant = Fix
 let rules = rules_v rules_variant
 
 let rec arith_of_sexp (x : Sexp.t) : arith =
